@@ -289,7 +289,7 @@ def shared_case(item):
         if nd.parent is not h:
             viols.append({"rule": "structure_parent", "expected": h.full_name, "observed": repr(nd.parent)})
         leaf = nd if kind != "strat" else nd["a"]
-        if abs(float(leaf.position) - qty) > 1e-12:
+        if not (abs(float(leaf.position) - qty) <= 1e-12):
             viols.append({"rule": "shared_node_positions_mix", "expected": {"holder": h.full_name, "position": qty}, "observed": float(leaf.position)})
     for r in roots:
         mem = r.members
@@ -310,7 +310,11 @@ def dynamic_case(item):
     data = T.frame(T.TABLES["exact"], 4, ["a", "b", "c"])
     root = bt.Strategy("r", [], list(root_decl) if root_decl else None)
     root.use_integer_positions(False)
-    root.setup(data)
+    # the parent trades at mid (its own bid/offer table is all zero); the sub-strategies attached later
+    # bring a wide table of their own ("additional arguments ... overriding those from the parent")
+    zero_bo = pd.DataFrame(0.0, index=data.index, columns=data.columns)
+    wide_bo = pd.DataFrame(1.0, index=data.index, columns=data.columns)
+    root.setup(data, bidoffer=zero_bo)
     root.adjust(64.0)
     root.update(data.index[0])
     viols = []
@@ -322,18 +326,35 @@ def dynamic_case(item):
 
     def make(name, decl):
         c = bt.Strategy(name, [], list(decl) if decl else None, parent=root)
-        c.setup_from_parent()
+        c.setup_from_parent(bidoffer=wide_bo)
         made.append((name, decl))
         return c
 
     d1 = make("d1", decl1)
+    # first use of one of the parent's own (string-named) tickers after the child was set up: it trades
+    # on the parent's table, like a security constructed up front
+    own = [t_ for t_ in (root_decl or list(data.columns)) if t_ in data.columns]
+    if own:
+        root.allocate(4.0, child=own[0])
+        sec = root[own[0]]
+        if not (abs(float(sec.bidoffer_paid)) <= 1e-12) or not (abs(float(sec.position) * float(data[own[0]].iloc[0]) - 4.0) <= 1e-9):
+            V("lazy_security_uses_its_parents_tables", {"security": own[0], "bidoffer_paid": 0.0, "cost": 4.0}, {"bidoffer_paid": float(sec.bidoffer_paid), "position": float(sec.position)})
     root.allocate(16.0, child="d1")
     tick1 = (decl1 or ["a"])[0]
     d1.transact(2.0, tick1)
     root.update(data.index[0])
     for i in range(1, 4):
         if i == when2:
+            # the parent's universe has been looked at on this date already, then the child is attached:
+            # what the parent sees afterwards has the new column and still ends at the current date
+            root.update(data.index[i])
+            before_cols = sorted(root.universe.columns)
             d2 = make("d2", decl2)
+            u = root.universe
+            if len(u.index) and u.index[-1] > root.now:
+                V("universe_beyond_now", {"node": "r", "now": str(root.now), "after": "attaching a sub-strategy on a date whose universe was read before"}, str(u.index[-1]))
+            if "d2" not in u.columns:
+                V("structure_universe_columns", {"node": "r", "has_column": "d2", "before": before_cols}, sorted(u.columns))
             root.allocate(8.0, child="d2")
             d2.transact(1.0, (decl2 or ["b"])[0])
         root.update(data.index[i])
@@ -471,7 +492,7 @@ def same(a, b, exact, scale):
         if exact:
             if x != y:
                 return False
-        elif abs(x - y) > 1e-9 * max(1.0, abs(x), abs(y), scale):
+        elif not (abs(x - y) <= 1e-9 * max(1.0, abs(x), abs(y), scale)):
             return False
     return True
 
@@ -553,6 +574,40 @@ def backtest_universe_case(item):
     return ("ok", viols, 1)
 
 
+def hedge_variants_case(spec):
+    """a hedge instrument declared lazily (lazy_add, with a contract multiplier) gives the same book as the
+    same instrument constructed up front"""
+    res = {}
+    for lazy in (False, True):
+        r = runcheck.execute(dict(spec, lazy_hedge=lazy))
+        if r["status"] == "guard":
+            return ("refused", [], 0)
+        if r["status"] == "crash":
+            return ("crash", [{"rule": "crash", "observed": r["err"], "where": {"lazy_hedge": lazy}}], 0)
+        res[lazy] = r["hist"]
+    viols = []
+    for node in res[False]:
+        for s_ in ("values", "prices", "cash", "positions", "notional_values"):
+            if s_ not in res[False][node]:
+                continue
+            a = res[False][node][s_]
+            b = res[True].get(node, {}).get(s_)
+            if b is None:
+                viols.append({"rule": "lazy_vs_eager", "expected": {"node": node, "series": s_}, "observed": "node missing in the lazy variant"})
+                break
+            da, db = dict(zip(*a)), dict(zip(*b))
+            for lab, x in da.items():
+                y = db.get(lab, 0.0)
+                if not (abs(x - y) <= 1e-9 * max(1.0, abs(x)) or (x != x and y != y)):
+                    viols.append({"rule": "lazy_vs_eager", "expected": {"node": node, "series": s_, "date": lab, "eager": x}, "observed": y})
+                    break
+            if viols:
+                break
+        if viols:
+            break
+    return ("ok", viols[:2], 1)
+
+
 def replay(case):
     k = case["kind"]
     if k == "recipe":
@@ -563,6 +618,8 @@ def replay(case):
         return dynamic_case(tuple(case["where"]))[1]
     if k == "variants":
         return variants_case(case["spec"])[1]
+    if k == "hedgevariants":
+        return hedge_variants_case(case["spec"])[1]
     if k == "btuniverse":
         return backtest_universe_case(tuple(case["where"]))[1]
     return nested_case(case["spec"])[1]
@@ -618,6 +675,14 @@ def run(ctx):
                 ctx.mark(("nested", kind, runcheck._key(spec)))
             for v in viols:
                 ctx.violation(dict(v, build=kind, module=MOD, case={"kind": "nested", "spec": spec}))
+    hv = [{"tree": "fi_hedge", "stack": {"gate": g}, "fi_weights": w, "data": "d12", "alpha": "exact", "late": False, "integer": False, "capital": 0.0, "rng": 0, "fee": None, "spread": None, "mult_d": m} for g in ("daily", "weekly") for w in ({"a": 0.5, "b": 0.5}, {"a": 0.75, "b": -0.25}) for m in (1, 2, 10)]
+    for kind in kinds:
+        for spec, (status, viols, n) in ctx.run(kind, MOD, "hedge_variants_case", hv, chunksize=2):
+            ctx.add(states=1, transitions=2, traces_validated_against_impl=2, evaluations=1)
+            if status == "ok":
+                ctx.mark(("hv", kind, runcheck._key(spec)))
+            for v in viols:
+                ctx.violation(dict(v, build=kind, module=MOD, case={"kind": "hedgevariants", "spec": spec}))
     bu = [(sh, ec, integer) for sh in ("undeclared", "declared", "declared_nodes", "nested") for ec in ("full", "late", "all_nan") for integer in (True, False)]
     for kind in kinds:
         for item, (status, viols, n) in ctx.run(kind, MOD, "backtest_universe_case", bu, chunksize=2):
